@@ -9,12 +9,20 @@ from core import Fraction, frac, rat
 from props import metrics_common as mc
 from props import metrics_cli as cli
 
+MODELLED = ["evo/core/metrics.py:RPE.__init__", "evo/core/metrics.py:RPE.rpe_base", "evo/core/metrics.py:RPE.process_data",
+            "evo/core/metrics.py:id_pairs_from_delta", "evo/core/metrics.py:PE.change_unit",
+            "evo/core/lie_algebra.py:relative_se3", "evo/core/lie_algebra.py:se3_inverse", "evo/core/lie_algebra.py:so3_log_angle",
+            "evo/core/lie_algebra.py:so3_log", "evo/core/lie_algebra.py:is_so3", "evo/main_rpe.py:rpe", "evo/main_rpe.py:run",
+            "evo/common_ape_rpe.py:downsample_or_filter", "evo/common_ape_rpe.py:get_pose_relation",
+            "evo/common_ape_rpe.py:get_delta_unit", "evo/common_ape_rpe.py:load_trajectories", "evo/main_rpe_parser.py:parser"]
+
 RULE = ("process_data cases = (relation, delta, delta unit f|m|r|d, consecutive|all_pairs, pairs_from_reference, storage mode, "
         "reference poses, estimate poses): exact-grid stream, random stream (scales 1e-3..1e6, 5e5 offsets, hard relative "
         "angles), stationary stretches (zero reference distances), unequal lengths; the pair list given to the model is "
         "evo's own id_pairs_from_delta output on the driving trajectory; delta_ids compared exactly, values with the model's "
         "rational core + one sqrt/atan2, tolerance 64*2^-53*(max|input|+|result|); CLI cases run evo.main_rpe.run in-process "
-        "and compare error_array/timestamps bit for bit with the interpreted plan; non-trivial = at least two pairs with "
+        "and compare error_array/timestamps bit for bit with the interpreted plan, and with Pipeline.rpeRun executed inside the model on "
+        "the loaded input trajectories (refusal class, delta_ids, pair-end input poses, stamps exact; values to tolerance); non-trivial = at least two pairs with "
         "non-zero error, a zero-distance pair skipped, or a refusal; distinct by content hash")
 
 ANGLE = ("angle_rad", "angle_deg")
@@ -409,11 +417,12 @@ OPEN = ["float rounding of evo's evaluation: values agree with the exact definit
         "the pair selection is property C10: the model takes evo's id_pairs_from_delta output as an input (for delta unit frames the oracle also derives the pairs itself)",
         "scipy's rotation-vector code is not modelled: its angle is compared with atan2(sqrt(s2), c) of the model's rational core",
         "a reference distance below ~1e-162 m underflows to 0.0 in float but is non-zero in the model (not generated)",
-        "CLI: geometric steps interpreted with evo's own core API; proved here is the option -> step wiring"]
+        "CLI inside the model (Pipeline.rpeRun): parameters, not computed: Umeyama triple (C03), projected directions (C14), distances/angles compared by the motion filter (C11) and by the pair selection (C10); file readers are C06/C07"]
 
 
 def check(ctx):
     lean = core.lean_side(ctx.prop, ctx.tier)
+    core.drift(ctx, MODELLED)
     cli.check_tables(ctx, "rpe")
     cases = list(gen_cases(ctx))
     evaluate(ctx, cases)
